@@ -8,20 +8,18 @@ pub mod m0_perm0 {
    use crate::common::*;
    ascent! {
       pub struct Prog;
-      relation r5(i64, i64);
       relation r2(i64, i64, i64);
-      relation r1(i64, i64);
-      relation r3(i64, i64, i64);
-      relation r4(i64, i64, i64);
+      relation r5(i64, i64);
       relation r0(i64);
+      relation r4(i64, i64, i64);
+      relation r3(i64, i64, i64);
+      relation r1(i64, i64);
+      r3(v0, v1, v2) <-- r5(v0, v1) if ((*v0) < 4), r1(v1, v2) if ((*v2) != (*v1));
       r2(v1, v0, v1) <-- if let Some(v0) = Some(4), r1(v1, v2);
-      r3(v2, v1, v1) <-- r5(v3, v4), r4(v0, v1, v2), r4(v5, v4, 1);
-      r3((v0 + 1), v0, v0) <-- if let Some(v0) = Some(4), if (v0 < 6);
-      r2(v0, v2, v3) <-- r1(v0, v1), r1(v1, v2), r5(v2, v3);
-      r3(v0, (v0 + 1), v0) <-- let v0 = 2, if (v0 < 6), r1(v1, v0) if ((*v1) < 1);
       r4(v0, v1, (v0 + 1)) <-- if let Some(v0) = None::<i64>, r2(v0, (v0 + 0), v0), r3(v1, v0, v0), if (v0 < 6);
-      r3(v0, v2, v3) <-- r1(v0, v1), r5(v1, v2), r1(v2, v3);
-      r0(v0) <-- if let Some(v0) = Some(0), r1(v0, (v0 + 0));
+      r3(v0, (v0 + 1), v0) <-- let v0 = 2, if (v0 < 6), r1(v1, v0) if ((*v1) < 1);
+      r5((v0 + 1), v0) <-- for v0 in [3, 4], if (v0 < 6);
+      r2(v0, v8, v9) <-- r1(v0, v1), if let Some(v9) = Some(2), r5(v1, v9) let v8 = ((*v0) + 1);
    }
    pub struct Inst { p: Prog, pool: Option<ascent::rayon::ThreadPool> }
    pub fn make(pool: Option<usize>) -> Box<dyn Driver> {
@@ -65,8 +63,11 @@ pub mod m1_ren1 {
       foo(0, 3, 3) <-- edge(1, 1);
       foo(a, a, (a + 1)) <-- let a = 2, foo(a, (a + 1), (a + 1)), path(a, a), if (a < 6);
       foo(a, b, c) <-- edge(a, b) if ((*a) < 3), path(b, c) if ((*c) != (*b));
-      foo(a, b, m) <-- let m = 2, edge(a, b), path(b, m);
-      foo(b, b, ((*a) + 1)) <-- path(a, b) if ((*b) < 6), if ((*a) < 6);
+      node(a) <-- edge(a, b) if ((*a) < 3), path(b, c) if ((*c) != (*b));
+      foo(b, ((*a) + 1), b) <-- node(a) if ((*a) < 2), path(b, a), if ((*a) < 6);
+      foo(b, b, b) <-- edge(3, 2), path(0, a), path(a, b);
+      path(3, 3) <-- path(1, 1);
+      foo(1, 2, 1);
    }
    pub struct Inst { p: Prog, pool: Option<ascent::rayon::ThreadPool> }
    pub fn make(pool: Option<usize>) -> Box<dyn Driver> {
@@ -101,22 +102,21 @@ pub mod m3_perm1 {
    use crate::common::*;
    ascent! {
       pub struct Prog;
-      relation r2(i64);
       relation r4(i64, i64);
-      relation r3(i64, i64);
+      relation r2(i64);
       relation r1(i64);
-      relation r0(i64, i64);
+      relation r3(i64, i64);
       relation r5(i64, i64, i64);
+      relation r0(i64, i64);
       r1(v1) <-- let v0 = 0, r0(v1, v0), if ((*v1) != 3);
-      r2(v1) <-- r1(v1), if let Some(v0) = Some(4), r0(v0, v2);
       r3(v0, 1) <-- r2(v0) if ((*v0) != 1);
-      r5(v2, v4, v3) <-- r0(v0, v1) if ((*v1) <= 4), r0(v2, v3), if let Some(v4) = Some((*v3));
-      r3(v0, v0) <-- r1(v0) if ((*v0) != 6), r2(v2), let v1 = (*v0);
-      r1(((*v0) + 1)) <-- r1(v0) if ((*v0) < 3), if ((*v0) < 6);
-      r5((v2 + 1), v2, 1) <-- r4(v0, v1) if ((*v0) < 1) let v2 = ((*v1) + 0), r3(v2, v0), if (v2 < 6), let v3 = (*v1);
-      r5(v0, v1, v9) <-- r0(v0, v1), for v9 in 0..3, r3(v9, v1);
       r4(v0, v0) <-- r3(v0, 3), if ((*v0) <= 1), r2(v0);
-      r3(v0, v2) <-- let v0 = 3, r5(v0, v1, v0), r0(((*v1) + 1), v2), r4(((*v1) + 1), ((*v1) + 1)) if ((*v1) <= 6);
+      r0(3, 0);
+      r2(v1) <-- r1(v1), if let Some(v0) = Some(4), r0(v0, v2);
+      r5((v2 + 1), v2, 1) <-- r4(v0, v1) if ((*v0) < 1) let v2 = ((*v1) + 0), r3(v2, v0), if (v2 < 6), let v3 = (*v1);
+      r4(v0, 1) <-- r0(v0, 3) if ((*v0) != 6), let v1 = (*v0);
+      r1(((*v0) + 1)) <-- r0(1, v0), if ((*v0) < 6);
+      r3(v0, v8) <-- r0(v0, v1), if let Some(v9) = Some(2), r3(v1, v9) let v8 = ((*v0) + 1);
    }
    pub struct Inst { p: Prog, pool: Option<ascent::rayon::ThreadPool> }
    pub fn make(pool: Option<usize>) -> Box<dyn Driver> {
@@ -156,7 +156,7 @@ pub mod m5 {
       relation r0(i64, i64);
       relation r1(i64, i64);
       relation r2(i64, i64);
-      r2(v0, v1) <-- r2(v0, v1), r2(1, v2), if ((*v0) != 2);
+      r2(v0, v1) <-- r2(v0, v1), r2(v1, v1), if ((*v1) != 2);
       r2(v1, v1) <-- r0(v0, v1), r2(v0, v2);
    }
    pub struct Inst { p: Prog, pool: Option<ascent::rayon::ThreadPool> }
@@ -191,14 +191,14 @@ pub mod m6_perm0 {
    use crate::common::*;
    ascent! {
       pub struct Prog;
-      relation r2(i64, i64);
       relation r1(i64, i64);
       relation r0(i64, i64);
-      r2(v0, v1) <-- r2(v0, v1), r2(v1, v2);
+      relation r2(i64, i64);
       r2(v0, v0) <-- r2(3, v0), r2(v0, v1);
-      r2(v0, v1) <-- r0(v0, v1), if ((*v0) == 3);
-      r2(v0, v1) <-- r2(v0, v1), r2(1, v2);
       r2(1, v0) <-- r1(v0, v1);
+      r2(v0, v2) <-- r1(v0, v1), r2(v1, v2), r1(v2, v3);
+      r2(v0, v1) <-- r0(v0, v1), if ((*v0) == 3);
+      r2(v0, v1) <-- r2(v0, v1), r2(v1, v1);
       r1(1, 0);
    }
    pub struct Inst { p: Prog, pool: Option<ascent::rayon::ThreadPool> }
@@ -233,18 +233,18 @@ pub mod m7_perm1 {
    use crate::common::*;
    ascent! {
       pub struct Prog;
-      relation r3(i64);
-      relation r0(i64, i64);
-      relation r1(i64, i64);
       relation r2(i64, i64);
-      r1(v0, v1) <-- r0(v0, v1), r1(v9, v1);
+      relation r3(i64);
+      relation r1(i64, i64);
+      relation r0(i64, i64);
+      r1(v0, v1) <-- r0(v0, v1), r0(v1, v2), if ((*v2) == 1), r2(v0, v0);
+      r1(v0, v2) <-- r0(v0, v1), r1(v1, v2), r0(v2, v3);
+      r3(2) <-- r2(v1, v2), r1(0, v0), if ((*v0) != 2);
+      r1(1, 2);
+      r2(v1, v1) <-- r0(v0, v1);
+      r3(v1) <-- r0(v0, v1), if ((*v0) == 0);
       r1(v0, v0) <-- r0(v0, v1), if ((*v0) != 3);
       r1(1, 3);
-      r2(v1, v1) <-- r0(v0, v1);
-      r1(v0, v0) <-- r0(v0, v1), r2(v1, v9), if ((*v9) == 1);
-      r3(v1) <-- r0(v0, v1), if ((*v0) == 0);
-      r1(1, 2);
-      r3(2) <-- r2(v1, v2), r1(0, v0), if ((*v0) != 2);
    }
    pub struct Inst { p: Prog, pool: Option<ascent::rayon::ThreadPool> }
    pub fn make(pool: Option<usize>) -> Box<dyn Driver> {
@@ -284,13 +284,10 @@ pub mod m8_ren0 {
       relation rel2_(i64, i64, i64);
       relation rel3_(i64, i64);
       relation rel4_(i64);
-      rel1_(x0_, x0_) <-- rel0_(x0_), if ((*x0_) != 3);
+      rel1_(x0_, x0_) <-- rel0_(x0_), if ((*x0_) != 0);
       rel1_(x1_, x0_) <-- rel1_(x0_, x1_), rel0_(x0_);
-      rel2_(x0_, x1_, x2_) <-- rel3_(x0_, x1_), rel1_(1, x2_);
-      rel1_(x0_, x0_) <-- rel1_(x0_, 0), if ((*x0_) != 0);
-      rel1_(0, x0_) <-- rel2_(x0_, x1_, x2_), rel4_(x3_);
-      rel1_(0, 1) <-- rel0_(3);
-      rel4_(x0_) <-- rel4_(x0_), rel2_(1, x0_, x0_), rel4_(x0_);
+      rel4_(x0_) <-- rel3_(x0_, x1_), rel1_(x1_, x2_), if ((*x2_) == 0);
+      rel3_(x1_, x0_) <-- rel2_(0, x0_, x1_), if ((*x1_) == 2);
    }
    pub struct Inst { p: Prog, pool: Option<ascent::rayon::ThreadPool> }
    pub fn make(pool: Option<usize>) -> Box<dyn Driver> {
@@ -330,7 +327,7 @@ pub mod m9_ren1 {
       relation path(i64, i64);
       relation node(i64, i64, i64);
       node(a, a, a) <-- path(a, 3), if ((*a) == 1);
-      node(a, b, m) <-- path(a, b), path(b, m);
+      node(a, b, a) <-- path(a, b), path(b, b);
       path(b, c) <-- node(a, 3, b), path(1, c), if ((*a) != 3);
       path(3, 2);
       node(c, b, f) <-- path(a, b), node(c, b, d), node(e, b, f), if ((*a) != 2);
@@ -359,6 +356,90 @@ pub mod m9_ren1 {
    }
 }
 
+#[allow(unused, non_snake_case, clippy::all)]
+pub mod m11 {
+   use ascent::*;
+   use ascent::aggregators::*;
+   use ascent::lattice::{Dual, set::Set};
+   use crate::common::*;
+   ascent! {
+      pub struct Prog;
+      relation r0(i64, i64);
+      relation r1(i64, i64);
+      relation r2(i64, i64);
+      r2(v0, v1) <-- r2(v0, v1), r0(v0, v0), r2(v1, v2);
+      r2(1, v0) <-- if let Some(v0) = Some(3), r1(v0, v1), r0(v0, v0), for v2 in 0..4;
+   }
+   pub struct Inst { p: Prog, pool: Option<ascent::rayon::ThreadPool> }
+   pub fn make(pool: Option<usize>) -> Box<dyn Driver> {
+      let pool = pool.map(|n| ascent::rayon::ThreadPoolBuilder::new().num_threads(n).build().unwrap());
+      let p = match &pool { Some(pl) => pl.install(|| Default::default()), None => Default::default() };
+      Box::new(Inst { p, pool })
+   }
+   impl Driver for Inst {
+      fn load(&mut self, rel: usize, rows: &[Sexp], append: bool) -> Option<()> {
+         match rel {
+         0 => { let v: Vec<(i64,i64,)> = parse_rows(rows)?; if append { self.p.r0.extend(v) } else { self.p.r0 = v } },
+         1 => { let v: Vec<(i64,i64,)> = parse_rows(rows)?; if append { self.p.r1.extend(v) } else { self.p.r1 = v } },
+         2 => { let v: Vec<(i64,i64,)> = parse_rows(rows)?; if append { self.p.r2.extend(v) } else { self.p.r2 = v } },
+            _ => return None,
+         }
+         Some(())
+      }
+      fn run(&mut self) { match &self.pool { Some(pl) => { let p = &mut self.p; pl.install(|| p.run()) }, None => self.p.run() } }
+      fn run_here(&mut self) { self.p.run() }
+      fn run_timeout(&mut self, k: usize) -> Option<bool> { let _ = k; None }
+      fn dump(&self) -> String { vec![dump_rel(0, self.p.r0.iter().map(Row::render).collect()), dump_rel(1, self.p.r1.iter().map(Row::render).collect()), dump_rel(2, self.p.r2.iter().map(Row::render).collect())].join(" | ") }
+      fn iters(&self) -> String { format!("iters {}", self.p.scc_iters.iter().map(|x| x.to_string()).collect::<Vec<_>>().join(" ")) }
+   }
+}
+
+#[allow(unused, non_snake_case, clippy::all)]
+pub mod m12_ren0 {
+   use ascent::*;
+   use ascent::aggregators::*;
+   use ascent::lattice::{Dual, set::Set};
+   use crate::common::*;
+   ascent! {
+      pub struct Prog;
+      relation rel0_(i64, i64, i64);
+      relation rel1_(i64, i64, i64);
+      relation rel2_(i64);
+      relation rel3_(i64);
+      relation rel4_(i64, i64, i64);
+      relation rel5_(i64, i64);
+      rel3_(x2_) <-- rel1_(x0_, x1_, x2_) if ((*x0_) != 5) let x3_ = ((*x2_) + 0);
+      rel3_(((*x0_) + 1)) <-- rel3_(1), rel0_(x0_, x1_, x2_), if ((*x0_) < 6);
+      rel4_(x0_, x1_, x2_) <-- rel5_(x0_, x1_), rel5_(x0_, x0_), rel5_(x1_, x2_);
+      rel5_(((*x0_) + 1), x0_) <-- rel4_(1, 2, x0_) if ((*x0_) < 2), if ((*x0_) < 6);
+   }
+   pub struct Inst { p: Prog, pool: Option<ascent::rayon::ThreadPool> }
+   pub fn make(pool: Option<usize>) -> Box<dyn Driver> {
+      let pool = pool.map(|n| ascent::rayon::ThreadPoolBuilder::new().num_threads(n).build().unwrap());
+      let p = match &pool { Some(pl) => pl.install(|| Default::default()), None => Default::default() };
+      Box::new(Inst { p, pool })
+   }
+   impl Driver for Inst {
+      fn load(&mut self, rel: usize, rows: &[Sexp], append: bool) -> Option<()> {
+         match rel {
+         0 => { let v: Vec<(i64,i64,i64,)> = parse_rows(rows)?; if append { self.p.rel0_.extend(v) } else { self.p.rel0_ = v } },
+         1 => { let v: Vec<(i64,i64,i64,)> = parse_rows(rows)?; if append { self.p.rel1_.extend(v) } else { self.p.rel1_ = v } },
+         2 => { let v: Vec<(i64,)> = parse_rows(rows)?; if append { self.p.rel2_.extend(v) } else { self.p.rel2_ = v } },
+         3 => { let v: Vec<(i64,)> = parse_rows(rows)?; if append { self.p.rel3_.extend(v) } else { self.p.rel3_ = v } },
+         4 => { let v: Vec<(i64,i64,i64,)> = parse_rows(rows)?; if append { self.p.rel4_.extend(v) } else { self.p.rel4_ = v } },
+         5 => { let v: Vec<(i64,i64,)> = parse_rows(rows)?; if append { self.p.rel5_.extend(v) } else { self.p.rel5_ = v } },
+            _ => return None,
+         }
+         Some(())
+      }
+      fn run(&mut self) { match &self.pool { Some(pl) => { let p = &mut self.p; pl.install(|| p.run()) }, None => self.p.run() } }
+      fn run_here(&mut self) { self.p.run() }
+      fn run_timeout(&mut self, k: usize) -> Option<bool> { let _ = k; None }
+      fn dump(&self) -> String { vec![dump_rel(0, self.p.rel0_.iter().map(Row::render).collect()), dump_rel(1, self.p.rel1_.iter().map(Row::render).collect()), dump_rel(2, self.p.rel2_.iter().map(Row::render).collect()), dump_rel(3, self.p.rel3_.iter().map(Row::render).collect()), dump_rel(4, self.p.rel4_.iter().map(Row::render).collect()), dump_rel(5, self.p.rel5_.iter().map(Row::render).collect())].join(" | ") }
+      fn iters(&self) -> String { format!("iters {}", self.p.scc_iters.iter().map(|x| x.to_string()).collect::<Vec<_>>().join(" ")) }
+   }
+}
+
 fn main() {
-   common::main_loop(&[("m0_perm0", m0_perm0::make as common::Factory), ("m1_ren1", m1_ren1::make as common::Factory), ("m3_perm1", m3_perm1::make as common::Factory), ("m5", m5::make as common::Factory), ("m6_perm0", m6_perm0::make as common::Factory), ("m7_perm1", m7_perm1::make as common::Factory), ("m8_ren0", m8_ren0::make as common::Factory), ("m9_ren1", m9_ren1::make as common::Factory)]);
+   common::main_loop(&[("m0_perm0", m0_perm0::make as common::Factory), ("m1_ren1", m1_ren1::make as common::Factory), ("m3_perm1", m3_perm1::make as common::Factory), ("m5", m5::make as common::Factory), ("m6_perm0", m6_perm0::make as common::Factory), ("m7_perm1", m7_perm1::make as common::Factory), ("m8_ren0", m8_ren0::make as common::Factory), ("m9_ren1", m9_ren1::make as common::Factory), ("m11", m11::make as common::Factory), ("m12_ren0", m12_ren0::make as common::Factory)]);
 }
